@@ -30,6 +30,9 @@ Counting, after the ring is flushed (Props/C16conv.lean, same property):
                                state on a flushed ring adopts within `3(d+p)` further packets (≤ 2(d+p) until a packet
                                contradicts the old ratio, ≤ d+p until both pulses lie in the window); for
                                `2(d+p) ≤ 258`: at the first tuning packet resp. within `2(d+p)` (`…_small`).
+Whole histories (Props/C16pre.lean, same property): `C16_converges_below_paws` — from every state reachable under one
+d/p sender, 258 + 2(d+p) in-order packets below paws' suffice; `C16_converges_full_false` — `C16_converges_full` below
+is false (D9) even on reachable states.
 Partial:
 * `C16_converges_partial`     a decoder in ANY state (ring contents, ratio, shouldTune) that is fed an in-order run
                                of ≥ 258 genuine packets below its paws' and is in the tuning branch at a packet where
